@@ -280,4 +280,63 @@ theorem valueFits_norm (be : Bool) (vr : VR) (v : PValue) (hv : ValidFor be vr v
       exact all_of_forall _ _ (fun a ha => by simpa using hb a ha)
   · rw [norm_num h0 hnum]; exact valueFits_numeric hnum
 
+/-! ### the OW/U8 arm of `encode_primitive_element` is inert on valid values and on normal forms
+(`ValidFor` does not include non-empty `U8` under OW: that combination is re-packed into words by the
+writer and is checked by the correspondence run only) -/
+
+theorem owWords_ne_ow {vr : VR} (h : vr ≠ .OW) (v : PValue) : owWords vr v = v := by
+  cases v <;> simp [owWords, h]
+
+theorem owWords_not_u8 (vr : VR) {v : PValue} (h : ∀ b, v ≠ .u8 b) : owWords vr v = v := by
+  cases v <;> first | rfl | exact absurd rfl (h _)
+
+theorem primitiveElement_u8_nil (e : Enc) (de : ElemHeader) (h1 : de.vr ≠ .DS) (h2 : de.vr ≠ .IS) :
+    e.primitiveElement de (.u16 []) = e.primitiveElement de (.u8 []) := by
+  simp [Enc.primitiveElement, h1, h2, PValue.calculateByteLen, encodePrimitive]
+
+/-- on a valid value the full `encode_primitive_element` is its main part -/
+theorem encodePrimitiveElement_valid (e : Enc) (tag : Tag) (vr : VR) (len : Nat) (v : PValue) (be : Bool)
+    (hv : ValidFor be vr v) :
+    e.encodePrimitiveElement ⟨tag, vr, len⟩ v = e.primitiveElement ⟨tag, vr, len⟩ v := by
+  unfold Enc.encodePrimitiveElement
+  by_cases hvr : vr = .OW
+  · subst hvr
+    cases v with
+    | u8 b =>
+      obtain ⟨_, _, _, hcls⟩ := hv
+      have hpv : paddedValue be .OW (.u8 b) = padTo b 0 := by simp [paddedValue, encodePrimitive, binPad]
+      have hb : b = [] := by
+        rcases hcls with h | ⟨h, _⟩ | ⟨h, _⟩ | h
+        · rw [hpv] at h
+          cases b with
+          | nil => rfl
+          | cons x r => unfold padTo at h; split at h <;> simp at h
+        · rcases h with h | h <;> simp [strsVrs, strVrs] at h
+        · rcases h with h | h <;> cases h
+        · exact absurd h (by simp [NumericOk])
+      subst hb
+      simp only [owWords, if_true, packWords]
+      exact primitiveElement_u8_nil e _ (by show VR.OW ≠ .DS; decide) (by show VR.OW ≠ .IS; decide)
+    | _ => rfl
+  · rw [owWords_ne_ow hvr]
+
+/-- a normal form is never bytes under OW -/
+theorem owWords_norm (be : Bool) (vr : VR) (v : PValue) (hv : ValidFor be vr v) :
+    owWords vr (normValue be vr v) = normValue be vr v := by
+  obtain ⟨hsq, _, _, hcls⟩ := hv
+  by_cases h0 : paddedValue be vr v = []
+  · rw [norm_empty h0]; rfl
+  rcases hcls with h | ⟨hvr, _⟩ | ⟨hvr, _⟩ | hnum
+  · exact absurd h h0
+  · by_cases hs : vr ∈ strsVrs
+    · rw [norm_strs h0 hs]; rfl
+    · have hs2 : vr ∈ strVrs := by rcases hvr with h | h; exact absurd h hs; exact h
+      rw [norm_str h0 hs hs2]; rfl
+  · rw [norm_u8 h0 hvr]
+    exact owWords_ne_ow (by rcases hvr with h | h <;> subst h <;> decide) _
+  · rw [norm_num h0 hnum]
+    apply owWords_not_u8
+    intro b hb
+    cases vr <;> cases v <;> simp [NumericOk] at hnum <;> simp [dropTxt] at hb
+
 end Dicom.Norm
